@@ -177,6 +177,9 @@ def c03(ctx):
                    invariants=["ReaderTotal", "Emit"], workers=8, timeout=3000)
     vj, _ = tlc_mc(ctx, "MC_Texts", consts={"MaxLen": 2, "Mode": '"tree"', "EmitVectors": "TRUE", "KindFirst": "TRUE" if q else "FALSE"},
                    invariants=["ReaderTotal", "Emit"], workers=8, timeout=3000)
+    ve, _ = tlc_mc(ctx, "MC_Texts", consts={"MaxLen": 3 if q else 4, "Mode": '"esc"', "EmitVectors": "TRUE", "KindFirst": "TRUE"},
+                   invariants=["ReaderTotal", "Emit"], workers=8, timeout=3000)
+    vt = vt + ve
     # 2. prefixes and single edits of the documents the spec writer produces for the small universe
     docs = texts_of_universe(ctx, 0 if q else 1, [0, 3, 9])
     muts = [{"op": "dec.zinc.mutants", "text": t, "full": not q} for t in docs]
